@@ -177,6 +177,8 @@ pub enum AccOp {
     SetStr(u16, Vec<String>),
     SetObserve(u32),
     Clear(u16),
+    /// Packet::set_content_format with the i-th named content format
+    SetContentFormat(u16),
 }
 
 fn ref_decode(width: usize, b: &[u8]) -> Option<u64> {
@@ -217,6 +219,10 @@ pub fn check_accessors(_ctx: &Ctx, ops: &Vec<AccOp>, acc: &mut Acc) -> Result<()
             ),
             AccOp::SetObserve(v) => p.set_observe_value(*v),
             AccOp::Clear(n) => p.clear_option(CoapOption::from(*n)),
+            AccOp::SetContentFormat(i) => {
+                let t = crate::refmodel::registry::content_formats();
+                p.set_content_format(t[*i as usize % t.len()].0)
+            }
         });
         if let Err(msg) = r {
             fail!("c06-accessor-panic", "{op:?} panicked: {msg}");
@@ -239,6 +245,10 @@ pub fn check_accessors(_ctx: &Ctx, ops: &Vec<AccOp>, acc: &mut Acc) -> Result<()
                 if let Some(l) = model.get_mut(n) {
                     l.clear()
                 }
+            }
+            AccOp::SetContentFormat(i) => {
+                let t = crate::refmodel::registry::content_formats();
+                model.insert(12, vec![min_uint(t[*i as usize % t.len()].1 as u64)]);
             }
         }
     }
@@ -547,7 +557,7 @@ pub fn run(ctx: &Ctx, rep: &mut Report) {
         ctx,
         rep,
         "typed-accessor-histories",
-        "random sequences of add_option_as / set_options_as / set_observe_value / clear_option mixed with raw (over-long, leading-zero, invalid UTF-8) values; raw lists must equal the reference encodings in order and every typed getter the reference decodes element by element; non-trivial = a number holding >= 2 values or an over-long value",
+        "random sequences of add_option_as / set_options_as / set_observe_value / set_content_format / clear_option mixed with raw (over-long, leading-zero, invalid UTF-8) values; raw lists must equal the reference encodings in order and every typed getter the reference decodes element by element; non-trivial = a number holding >= 2 values or an over-long value",
         n,
         || {
             let num = prop_oneof![3 => proptest::sample::select(vec![6u16, 7, 12, 14, 60, 11]), 1 => any::<u16>()];
@@ -559,6 +569,7 @@ pub fn run(ctx: &Ctx, rep: &mut Report) {
                     1 => (num.clone(), proptest::collection::vec("\\PC{0,4}", 0..3)).prop_map(|(n, l)| AccOp::SetStr(n, l)),
                     2 => prop_oneof![any::<u32>(), Just(0u32), Just(1), Just(1 << 24)].prop_map(AccOp::SetObserve),
                     1 => num.prop_map(AccOp::Clear),
+                    1 => any::<u16>().prop_map(AccOp::SetContentFormat),
                 ],
                 1..8,
             )
